@@ -23,12 +23,12 @@ Local Open Scope num_scope.
 Inductive status := Inactive | Initializing | Alive | Errored | Killed.
 
 (** post-step action classes that the energy code distinguishes *)
-Inductive paction := ABoundary | ARange | ADiscrete | ATrackingCut | AFailure | AOther | AModel.
+Inductive paction := ABoundary | ARange | ADiscrete | ATrackingCut | AFailure | AOther | AModel | ANone.
 
 Definition paction_eqb (a b : paction) : bool :=
   match a, b with
   | ABoundary, ABoundary | ARange, ARange | ADiscrete, ADiscrete
-  | ATrackingCut, ATrackingCut | AFailure, AFailure | AOther, AOther | AModel, AModel => true
+  | ATrackingCut, ATrackingCut | AFailure, AFailure | AOther, AOther | AModel, AModel | ANone, ANone => true
   | _, _ => false
   end.
 
